@@ -10,6 +10,7 @@ arithmetic with error propagation, which accumulator becomes amount_a / amount_b
 trader's amount and each pool's own price limit reach the engine unchanged (v2 exact-in
 charges `amount` or the fee-included swap input on the input mint; two-hop legs are wired
 to their own pool / limit / direction / oracle).
+Also decided: the swap loop is left without failing only through its own condition (amount used up, or price at the limit).
 Not decided: that the loop never overshoots, final price == limit on partial fills,
 behaviour over reachable pool states."""
 from analysis import cfg, atoms as A, preach
